@@ -249,7 +249,8 @@ def build_coverage(mod, agg, tier, wall_s, truncated, workers, known_hit):
     stats = agg["stats"]
     fired = {k[len("fired:"):]: v for k, v in stats.items() if k.startswith("fired:")}
     probes = {k[len("probe:"):]: v for k, v in stats.items() if k.startswith("probe:")}
-    other = {k: v for k, v in stats.items() if not k.startswith(("fired:", "probe:"))}
+    other = {k: v for k, v in stats.items() if not k.startswith(("fired:", "probe:", "state:"))}
+    states = sorted(k[len("state:"):] for k in stats if k.startswith("state:"))
     cov = {
         "evaluations": agg["runs"],
         "distinct_nontrivial": len(agg["keys"]),
@@ -273,6 +274,9 @@ def build_coverage(mod, agg, tier, wall_s, truncated, workers, known_hit):
         "harness_errors": len(agg["harness"]),
         "known_finding_classes_seen": sorted(known_hit),
         "components": getattr(mod, "COMPONENTS", {}),
+        "distinct_abstract_states": len(states),
+        "abstract_state_measure": getattr(mod, "STATE_MEASURE", "n/a"),
+        "abstract_state_examples": states[:: max(1, len(states) // 8)][:8],
     }
     cov.update(agg.get("extra", {}))
     cov.setdefault("simulated_clock_seconds", 0.0)
